@@ -4,6 +4,8 @@ import json, os
 ROOT = os.path.dirname(os.path.abspath(__file__))
 S = 'Engine S: symbolic execution of the clang-14 LLVM IR of the real translation unit (harness #includes the .cpp), z3 decides every assertion and every memory/UB obligation on every path'
 CLAIMED = {
+ 'C37': ('Bounded symbolic check of StructuredLogger::log and its escaping on events / field names / values whose bytes are all symbolic: the record is exactly one line of valid JSON whose strings decode back (RFC 8259 un-escaper) to exactly what was logged.',
+         'std::ostringstream / std::clog are source-level sink classes in the engine (validated against the real iostreams on every native replay); symbolic bytes are ASCII plus a fixed valid 2-byte UTF-8 sequence; event 1..2 (3) symbolic bytes, 0..1 (2) fields'),
  'C04': ('Bounded symbolic check of the real ChunkStore with persistence on, its operating-system primitives replaced by a model disk: over every sequence of 3 (quick) / 4 (thorough) put / lookup / sweep operations a chunk file exists only for a stored, not yet cleaned-up chunk, holds the stored bytes and is gone after the cleanup following the expiry (lookup-noticed expiry and failed writes included); restart on the same directory is the open known finding.',
          'persist_chunk_to_disk / secure_wipe_file / ensure_storage_directory themselves (std::filesystem + fstream, fsync, crash inside a write) are not encoded: only when the store invokes them'),
  'C05': ('Bounded symbolic check of the cleanup branch of Node::tick with audit_ttl and the cleanup notifications (lifted onto a partial Node with the real ChunkStore and KademliaTable): after a cleanup tick at or after a local chunk\'s deadline none of record, self-announcement, locator, key shares, cached manifest and swarm plan remains, the TTL audit is healthy, and the expiry is reported exactly once - also when a lookup noticed it first.',
